@@ -151,7 +151,8 @@ FULL_OVERRIDES = {
     ('channel', 'dimension'): [3], ('channel', 'element_limit'): [3], ('channel', 'axis'): [R_('A0')],
     ('calibration_measurement', 'dimension'): [1], ('calibration_measurement', 'axis'): [R_('A0')],
     ('splice', 'input_channels'): [R_('C0')], ('splice', 'zones'): [R_('Z0')],
-    ('frame', 'spacing'): 0.5, ('frame', 'index_min'): 1.0, ('frame', 'index_max'): 2.0, ('frame', 'direction'): 'INCREASING',
+    # (deliberately NOT what the data of the frame's index channel would give: 1.0 / 2.0 / 0.5 / INCREASING)
+    ('frame', 'spacing'): 0.25, ('frame', 'index_min'): -7.5, ('frame', 'index_max'): 99.0, ('frame', 'direction'): 'DECREASING',
     ('frame', 'encrypted'): 0,
 }
 # base mode 'rank2': objects whose values have dimension [2, 2] (values nested three levels deep)
